@@ -73,24 +73,29 @@ theorem nan_never_completed {V A : Type} (alg : Core.Alg V A) (maxRetries : Nat)
   (Core.endDecision_spec alg maxRetries t oc).2.2
 
 /-- **whole searches are symmetric**: two algorithm records that mirror each other (scoring rule of the negated reports =
-negated scoring rule; same choice of the next configuration on mirrored states) answer EVERY request list identically —
-same trial ids, same values, same IDLE / STOPPED / abort, for any number of tuners, any interleaving and any outcomes — … -/
-theorem whole_search_symmetric {V A : Type} (algMax algMin : Core.Alg V A) (m : Symmetry.Mirror algMax algMin)
+negated scoring rule; same choice of the next configuration on mirrored states, the algorithm state mapped by `f`) answer
+EVERY request list identically — same trial ids, same values, same IDLE / STOPPED / abort, for any number of tuners, any
+interleaving and any outcomes — … -/
+theorem whole_search_symmetric {V A : Type} (f : A → A) (algMax algMin : Core.Alg V A) (m : Symmetry.MirrorF f algMax algMin)
     (o : Core.Oracle V A) (ops : List Core.Op) :
-    Symmetry.outputs algMin (Symmetry.negO o) (ops.map Symmetry.negOp) = Symmetry.outputs algMax o ops :=
-  Symmetry.mirror_outputs algMax algMin m ops o
+    Symmetry.outputs algMin (Symmetry.negOf f o) (ops.map Symmetry.negOp) = Symmetry.outputs algMax o ops :=
+  Symmetry.mirror_outputs f algMax algMin m ops o
 
 /-- … and end in mirrored states: the same trials, statuses, orders and queues, every score negated -/
-theorem whole_search_states_mirror {V A : Type} (algMax algMin : Core.Alg V A) (m : Symmetry.Mirror algMax algMin)
+theorem whole_search_states_mirror {V A : Type} (f : A → A) (algMax algMin : Core.Alg V A) (m : Symmetry.MirrorF f algMax algMin)
     (o : Core.Oracle V A) (ops : List Core.Op) :
-    Core.run algMin (Symmetry.negO o) (ops.map Symmetry.negOp) = Symmetry.negO (Core.run algMax o ops) :=
-  Symmetry.mirror_run algMax algMin m ops o
+    Core.run algMin (Symmetry.negOf f o) (ops.map Symmetry.negOp) = Symmetry.negOf f (Core.run algMax o ops) :=
+  Symmetry.mirror_run f algMax algMin m ops o
 
 /-- random search (and the Bayesian warm-up) and grid search are score-blind, hence symmetric as whole searches: maximising
 `s` and minimising `−s` issue the same trials -/
 theorem random_search_symmetric {W : Type} [DecidableEq W] (cands : Nat → List W) :
     Symmetry.Mirror (Symmetry.randomAlg false cands) (Symmetry.randomAlg true cands) := Symmetry.random_mirror cands
 theorem grid_search_symmetric : Symmetry.Mirror (Symmetry.gridAlg false) (Symmetry.gridAlg true) := Symmetry.grid_mirror
+
+/-- the whole Hyperband oracle is symmetric as well: it reads scores only to pick the promotion winner, and with the
+direction flag it carries flipped (`Symmetry.flipDir`) it picks the same trial on the mirrored state -/
+theorem hyperband_search_symmetric : Symmetry.MirrorF Symmetry.flipDir HB.alg HB.alg := Symmetry.hyperband_mirror
 
 /-- Hyperband's promotion winner is symmetric: the first optimum when maximising `s` is the first
 optimum when minimising `−s` -/
